@@ -266,6 +266,7 @@ func run(e *core.Env) {
 	disturbed := map[netip.Addr]bool{}
 
 	seq := 0
+	flooding := false
 	inbound := func(force *flow) {
 		seq++
 		si := 1 + tp.Intn(3)
@@ -325,7 +326,11 @@ func run(e *core.Env) {
 		frameSrc := sender.IP
 		sealer := sender
 		lie := ""
-		switch tp.Pick(10, 1, 1, 1, 1, 1) {
+		liePick := tp.Pick(10, 1, 1, 1, 1, 1)
+		if flooding {
+			liePick = 0
+		}
+		switch liePick {
 		case 5:
 			// not an IPv6 packet at all: another version number over bytes that would be an
 			// admissible IPv6 packet - it has no "inner IPv6 source and destination"
@@ -601,6 +606,29 @@ func run(e *core.Env) {
 			e.Infra("hello exchange %s<->%s in mid-run did not complete", names[a.IP], names[b.IP])
 		}
 		e.Probe("hello_exchange_repeated_mid_run")
+	}
+
+	// A flood first (one run in thirty): one router sends R twelve thousand packets from as
+	// many source ports within seconds - a port scan, or a busy client. Every one of them is
+	// judged like any other packet, and so is everything after it: whatever R keeps per flow,
+	// running out of room for it is no reason to let anything through, in either direction.
+	if tp.Chance(1, 30) {
+		si := 1 + tp.Intn(3)
+		proto := []uint8{6, 17}[tp.Intn(2)]
+		dport := uint16(1 + tp.Intn(65535))
+		if len(ports) > 0 && tp.Chance(1, 2) {
+			dport = ports[tp.Intn(len(ports))]
+		}
+		flooding = true
+		for i := 0; i < 12000; i++ {
+			inbound(&flow{si, proto, uint16(2000 + i), dport})
+		}
+		flooding = false
+		for k := 0; k < 10; k++ {
+			outbound()
+		}
+		e.Fault("flood")
+		e.Probe("twelve_thousand_flows_from_one_router")
 	}
 
 	nOps := 6 + tp.Intn(40)
